@@ -131,6 +131,9 @@ func CompileCorrespondence(c *Ctx, cases []*Case) []*Case {
 	return ok
 }
 
+// typedMapSrc recognises sources that mention one of the typed-map members of the zoo environment
+var typedMapSrc = regexp.MustCompile(`\bM[ISN]\b`)
+
 type VMResult struct {
 	Case  *Case
 	Real  *RunOutcome
@@ -232,6 +235,14 @@ func VMCorrespondence(c *Ctx, cases []*Case, budget int) []*VMResult {
 			r.Count("vm:err:"+vr.Real.Class, 1)
 		} else {
 			r.Count("vm:ok", 1)
+		}
+		if typedMapSrc.MatchString(vr.Case.Src) {
+			// members of type map[string]int / map[string]string / a nil map[string]int (zoo.go): missing key = element zero
+			if vr.Real.Err != nil {
+				r.Count("vm:typedmap:err", 1)
+			} else {
+				r.Count("vm:typedmap:ok", 1)
+			}
 		}
 		if real != model && !(strings.Contains(real, "f64") && powClose(vr.Case, real, model)) {
 			r.Mismatch("vm", vr.Case.Src+" ["+vr.Case.Mode.String()+"] env="+valSx(envVal(vr.Case)).String(), model, real)
